@@ -25,7 +25,7 @@ func minimise(t *testing.T, fam *Family, prop string, params any, seed uint64, t
 			return r.Tape, true
 		}
 		// then under a few fresh schedules
-		for k := uint64(0); k < 4; k++ {
+		for k := uint64(0); k < 2; k++ {
 			if time.Now().After(deadline) {
 				return nil, false
 			}
@@ -81,7 +81,8 @@ func minimise(t *testing.T, fam *Family, prop string, params any, seed uint64, t
 		}
 	}
 
-	// tape: shortest explicit prefix
+	// tape: shortest explicit prefix, then thin the prefix out (ddmin over
+	// chunks; removed decisions are filled in by the default policy)
 	lo, hi := 0, len(curT) // invariant: prefix of length hi reproduces
 	for lo < hi && time.Now().Before(deadline) {
 		mid := (lo + hi) / 2
@@ -92,6 +93,19 @@ func minimise(t *testing.T, fam *Family, prop string, params any, seed uint64, t
 		}
 	}
 	curT = append([]string{}, curT[:hi]...)
+	for chunk := len(curT) / 2; chunk >= 1 && time.Now().Before(deadline); chunk /= 2 {
+		for at := 0; at+chunk <= len(curT) && time.Now().Before(deadline); {
+			cand := append(append([]string{}, curT[:at]...), curT[at+chunk:]...)
+			if len(cand) == 0 {
+				cand = []string{}
+			}
+			if _, ok := reproduces(t, fam, prop, cloneParams(fam, curP), seed, cand, want); ok {
+				curT = cand
+			} else {
+				at += chunk
+			}
+		}
+	}
 	return curP, curT, fmt.Sprintf("scenario candidates tried=%d kept=%d; tape %d -> %d explicit decisions", tries, kept, len(tape), len(curT))
 }
 
